@@ -112,6 +112,40 @@ def search (T : Table) (m : Nat) (t : List Nat) : Nat → Nat → List Nat
 
 def findAll (p t : List Nat) : List Nat := search (build p) p.length t (t.length + 1) p.length
 
+/-! The search with the text indexed exactly as in the Rust code (`text[window - j]`, `window - m`, `m + 2 - j` in
+`usize`); `none` = the real code would panic (subtraction underflow, index out of bounds) or the model's fuel ran
+out.  `findAllS p t = some (findAll p t)` for every non-empty pattern (`RbV/Lemmas/BomOracle.lean`). -/
+
+/-- `while j <= m { match q { Some(q_) => { q = delta(q_, text[window - j]); j += 1 } None => break } }` -/
+def scanS (T : Table) (t : List Nat) (window m : Nat) : Nat → Nat → Option Nat → Option (Option Nat × Nat)
+  | 0, j, q => if j ≤ m ∧ q.isSome then none else some (q, j)
+  | fuel + 1, j, q =>
+    if j ≤ m then
+      match q with
+      | some q_ =>
+        if window < j then none else
+        match t[window - j]? with
+        | none => none
+        | some c => scanS T t window m fuel (j + 1) (delta T q_ c)
+      | none => some (none, j)
+    else some (q, j)
+
+def searchS (T : Table) (m : Nat) (t : List Nat) : Nat → Nat → Option (List Nat)
+  | 0, window => if window ≤ t.length then none else some []
+  | fuel + 1, window =>
+    if window ≤ t.length then
+      match scanS T t window m (m + 1) 1 (some 0) with
+      | none => none
+      | some (q, j) =>
+        if window < m ∨ m + 2 < j then none else
+        match searchS T m t fuel (window + (m + 2 - j)) with
+        | none => none
+        | some rest => some (if q.isSome then (window - m) :: rest else rest)
+    else some []
+
+def findAllS (p t : List Nat) : Option (List Nat) :=
+  (buildS p).bind fun T => searchS T p.length t (t.length + 1) p.length
+
 /-! ### decidable conditions on the table -/
 
 /-- every factor of `p`, read backwards, is accepted -/
